@@ -1612,6 +1612,80 @@ fn derivation_twins(mon: &Monitor, rng: &mut Rng, rt: &Runtime) {
     }
 }
 
+/// The DHT identity managers keep a cache of identities they have seen. A presented identity may be
+/// answered from that cache only if it IS the cached identity: after a genuine identity has been
+/// verified, a copy with one altered bit of signature, key, salt or timestamp must still be refused.
+fn ip_manager_family(mon: &Monitor, rng: &mut Rng, rt: &Runtime, v6: bool) {
+    use saorsa_core::dht::ipv4_identity::{IPv4DHTConfig, IPv4DHTIdentityManager};
+    use saorsa_core::dht::ipv6_identity::{IPv6DHTConfig, IPv6DHTIdentityManager};
+    let fam = if v6 { "ipv6" } else { "ipv4" };
+    let Ok(id) = NodeIdentity::generate() else { return };
+    let Ok(sk) = saorsa_core::quantum_crypto::ant_quic_integration::MlDsaSecretKey::from_bytes(id.secret_key_bytes()) else { return };
+    let ipb = gen_ip(rng, v6);
+    let part = *rng.pick(&["signature", "public_key", "salt", "timestamp"]);
+    let flip = |v: &mut Vec<u8>, rng: &mut Rng| {
+        if !v.is_empty() {
+            let i = rng.usize_below(v.len());
+            v[i] ^= 1 << rng.below(8);
+        }
+    };
+    // (genuine verdict, verdict for the altered copy presented afterwards)
+    let out: Result<(bool, bool), String> = if v6 {
+        let mut o = [0u8; 16];
+        o.copy_from_slice(&ipb);
+        let g = match IPv6NodeID::generate(Ipv6Addr::from(o), &sk, id.public_key()) {
+            Ok(g) => g,
+            Err(_) => return,
+        };
+        let mut f = g.clone();
+        match part {
+            "signature" => flip(&mut f.signature, rng),
+            "public_key" => flip(&mut f.public_key, rng),
+            "salt" => flip(&mut f.salt, rng),
+            _ => f.timestamp_secs ^= 1 << rng.below(5),
+        }
+        let mut m = IPv6DHTIdentityManager::new(IPv6DHTConfig::default());
+        rt.block_on(async {
+            let a = m.verify_ipv6_identity(&g).await.map_err(|e| e.to_string())?;
+            let b = m.verify_ipv6_identity(&f).await.map_err(|e| e.to_string())?;
+            Ok((a.is_valid, b.is_valid))
+        })
+    } else {
+        let g = match IPv4NodeID::generate(Ipv4Addr::new(ipb[0], ipb[1], ipb[2], ipb[3]), &sk, id.public_key()) {
+            Ok(g) => g,
+            Err(_) => return,
+        };
+        let mut f = g.clone();
+        match part {
+            "signature" => flip(&mut f.signature, rng),
+            "public_key" => flip(&mut f.public_key, rng),
+            "salt" => flip(&mut f.salt, rng),
+            _ => f.timestamp_secs ^= 1 << rng.below(5),
+        }
+        let mut m = IPv4DHTIdentityManager::new(IPv4DHTConfig::default());
+        rt.block_on(async {
+            let a = m.verify_ipv4_identity(&g).await.map_err(|e| e.to_string())?;
+            let b = m.verify_ipv4_identity(&f).await.map_err(|e| e.to_string())?;
+            Ok((a.is_valid, b.is_valid))
+        })
+    };
+    mon.eval();
+    mon.case(("ip-manager", fam, part));
+    mon.count(&format!("ipmgr.{fam}.{part}"), 1);
+    match out {
+        Ok((genuine, altered)) => {
+            mon.count(&format!("ipmgr.genuine.{}", if genuine { "valid" } else { "not-valid" }), 1);
+            if altered {
+                mon.violation(
+                    &format!("ip-manager/accepts-mutant/{fam}/after-genuine-seen/{part}"),
+                    json!({"ip": hex::encode(&ipb), "altered": part, "genuine_verdict_valid": genuine, "note": "same address and node id as the identity presented just before; one bit of the named field differs"}),
+                );
+            }
+        }
+        Err(e) => mon.count(&format!("ipmgr.error.{}", short(&e).len().min(1)), 1),
+    }
+}
+
 fn main() {
     let mon = Monitor::new("C08", "exploration");
     mon.set_rule("case = one verify call at one entry point; non-trivial when it is made against a genuine signature or a 1-bit mutant of one (message / signature / key bit, or a genuine signature under another identity's key or over another message); distinct by (entry point, identity kind or object family, mutated part refined to its structural region)");
@@ -1661,6 +1735,8 @@ fn main() {
             for _ in 0..6 {
                 derivation_twins(&mon, &mut rng, &rt);
             }
+            ip_manager_family(&mon, &mut rng, &rt, false);
+            ip_manager_family(&mon, &mut rng, &rt, true);
             mon.count("rounds", 1);
         }
     });
